@@ -27,6 +27,9 @@ type Stmt struct {
 	T1     string   `json:"t1,omitempty"`    // between keyword and argument (forced to contain a separator)
 	T2     string   `json:"t2,omitempty"`    // before ';' or '{'
 	T3     string   `json:"t3,omitempty"`    // before '}'
+	// Abut: T2 starts with a comment and stands directly behind an unquoted argument; a comment opener ends an unquoted
+	// string (RFC 6020 6.1.3), so nothing is put between them
+	Abut bool `json:"abut,omitempty"`
 }
 
 // Info is what the renderer knows about one emitted statement (preorder).
@@ -127,7 +130,7 @@ func (r *renderer) stmt(s *Stmt, depth int) {
 		info.Value = val.String()
 	}
 	t2 := s.T2
-	if lastUnquoted && t2 != "" && !startsWithBlank(t2) {
+	if lastUnquoted && t2 != "" && !startsWithBlank(t2) && !s.Abut {
 		t2 = " " + t2 // a comment directly after an unquoted token would become part of it
 	}
 	r.b.WriteString(t2)
